@@ -3,6 +3,7 @@ import ClusterVerif.Lemmas.C13Deliv
 import ClusterVerif.Lemmas.C13Import
 import ClusterVerif.Model.C13Flow
 import ClusterVerif.Lemmas.C13Par
+import ClusterVerif.Lemmas.C13Flush
 /-!
 C13 — property theorems about the bookkeeping model (Model/C13.lean) of the adders' DAG
 services. They hold for every block stream, every allocation script, every script of
@@ -865,5 +866,28 @@ theorem noSizeAccum_breaks :
 /-- refutation (limit compared with `<=`): with the non-strict operator a block that makes the shard exactly full is
     accepted, which the strict test read from the source (`Gen.fitStrict`) refuses -/
 theorem fit_le_differs : fits 4 6 10 = false ∧ decide (4 + 6 ≤ 10) = true := by decide
+
+/-- **the interpreted `Flush` refines the hand-written one**: the regenerated `(*shard).Flush` program, run on the object
+    the bookkeeping `Cur` stands for (allocations, shard number and previous shard as `flushCurrentShard` passes them), ends in
+    exactly the cluster side, destinations and outcome of `flushCore` (the `shard.Flush` part of `flush`) -/
+theorem flush_flow_refines (lim : Nat) (c : Cfg) (s : ShSt) (k : Cur) :
+    flushF Gen.shardFlush Gen.shardSize c s.env k.dests (objOf lim k) ⟨k.allocs, s.shards.length, s.prev⟩ =
+      some (flushCore c s k) := by
+  have hv : (objOf lim k).dagNode.map (·.2) = k.blocks.map (·.id) := numbered_vals _ 0
+  have hl : (objOf lim k).dagNode.length = k.blocks.length := by simp [objOf, numbered_length]
+  have hp : specPin c (objOf lim k) ⟨k.allocs, s.shards.length, s.prev⟩
+      (makeDAG s.env.named ((objOf lim k).dagNode.map (·.2)))
+      (indirectGuard (makeDAG s.env.named ((objOf lim k).dagNode.map (·.2))).length (objOf lim k).dagNode.length) =
+      flushPin c s k := by
+    rw [hv, hl]; rfl
+  rw [flushF_code]
+  unfold flushSpec flushCore
+  rw [hp, hv]
+  unfold flushNodes
+  generalize putMany c s.env k.dests (makeDAG s.env.named (k.blocks.map (·.id))) = pm
+  rcases pm with ⟨e1, d1, _ | _⟩
+  · rfl
+  · generalize pinCall c e1 (flushPin c s k) = q
+    rcases q with ⟨e2, _ | _⟩ <;> rfl
 
 end CV.C13.Flow
